@@ -108,6 +108,15 @@ PROPS = {
         "trusted_base": ["harness/src/s_symbols.rs, s_versions.rs::craft_append (signing fixture)", "tools/props.py oracle_symbols", "lean/Codec.lean, lean/Driver.lean"],
         "assumptions": [],
     },
+    "C13": {
+        "module": "BiscuitModel.Props.C13",
+        "streams": ["snapshot"],
+        "level_text": "Lean 4 theorems: intern_resolve (an interned string resolves to itself), insert_stable (earlier indices keep their meaning), restore_symbols and restore_keys (re-inserting, one by one, the symbol table and the public-key table a snapshot stores rebuilds exactly the tables the snapshot was written against - for every table produced by interning, snapshot_table_wf - so every symbol and key index in the snapshot keeps its meaning), key_map_restored (the restored key-to-blocks map registers every block, so a scope naming the key of a LATER block trusts it). Tie: for every generated token + authorizer (third-party blocks with their own symbols and keys, scopes naming keys of later blocks), snapshot taken before run, after run and after a failed run, raw and base64: the restored authorizer's decision and query answers are compared with the compiled model's, and an implementation-only oracle compares original and restored authorizer (Display: facts per origin, rules, checks, policies; limits; counters; authorize; queries), the builder snapshot round trip (dump_code, authorize) and the saved-policies round trip.",
+        "level_note": "Partial: that the restored authorizer BEHAVES like the original is established by the stream (the theorems give equality of the tables everything is expressed in, not invariance of evaluation under re-interning). Known finding: saved policies that name a public key cannot be restored (no key table in the AuthorizerPolicies message).",
+        "rule": "snapshot stream: corpus (three fixed findings) first; authz-style cases x {before, after, after_failed} x {raw, base64}; non-trivial = restore succeeded on a token with at least two blocks; distinct = distinct case JSON",
+        "trusted_base": ["harness/src/s_snapshot.rs", "tools/props.py oracle_snapshot", "lean/Codec.lean, lean/Driver.lean"],
+        "assumptions": ["order-dependent cases (C11) are left to C11"],
+    },
     "C15": {
         "module": "BiscuitModel.Props.C15",
         "streams": ["chain"],
@@ -393,7 +402,28 @@ def cmp_symbols(case, impl, model):
     return None
 
 
-COMPARATORS = {"symbols": cmp_symbols, "versions": cmp_versions, "chain": cmp_chain, "limits": cmp_limits, "expr": cmp_default, "engine": cmp_engine, "authz": cmp_authz, "atten": cmp_atten, "determ": cmp_determ}
+def cmp_snapshot(case, impl, model):
+    """the restored authorizer must behave as the model says the original does"""
+    if "driver_error" in model:
+        return "driver error: %s" % model["driver_error"]
+    if "panic" in impl:
+        return "implementation panicked: %s" % impl["panic"]
+    if model.get("amb") or model.get("r") in ("invalid-rule", "MODEL-OUT-OF-FUEL"):
+        return "skip"
+    if "restored" not in impl:
+        return "skip"
+    o = impl["restored"]
+    for k in ("r", "p", "pk", "failed"):
+        if o.get(k) != model.get(k):
+            return "restored authorizer: %s differs from the model: %s vs %s" % (k, json.dumps(o.get(k)), json.dumps(model.get(k)))
+    qi, qm = o.get("queries", []), model.get("queries", [])
+    for i, (a, b) in enumerate(zip(qi, qm)):
+        if _canon_query(a) != _canon_query(b):
+            return "restored authorizer: query %d differs from the model" % i
+    return None
+
+
+COMPARATORS = {"snapshot": cmp_snapshot, "symbols": cmp_symbols, "versions": cmp_versions, "chain": cmp_chain, "limits": cmp_limits, "expr": cmp_default, "engine": cmp_engine, "authz": cmp_authz, "atten": cmp_atten, "determ": cmp_determ}
 
 
 def nontrivial(stream, case, impl):
@@ -401,6 +431,8 @@ def nontrivial(stream, case, impl):
         return impl.get("err") != "InvalidStack"
     if stream == "authz":
         return impl.get("r") in ("ok", "nomatch", "unauth")
+    if stream == "snapshot":
+        return "restored" in impl and len(case["blocks"]) >= 2
     if stream == "symbols":
         return case["kind"] == "redeclare" or len(impl.get("steps", [])) >= 3
     if stream == "versions":
@@ -465,6 +497,37 @@ def oracle_atten(case, impl):
     return None
 
 
+def oracle_snapshot(case, impl):
+    """C13 on the implementation alone"""
+    if "panic" in impl:
+        return "panic: %s" % impl["panic"]
+    for k in ("builder_snapshot_error", "builder_restore_error", "snapshot_error", "restore_error", "policies_restore_error"):
+        if k in impl:
+            return "%s: %s" % (k.replace("_", " "), impl[k])
+    if impl.get("builder_same_code") is False:
+        return "builder restored from its snapshot prints different code: %s" % json.dumps(impl.get("builder_code"))[:300]
+    if impl.get("builder_same_outcome") is False:
+        return "builder restored from its snapshot authorizes differently"
+    if impl.get("policies_same") is False:
+        return "policies restored from their serialized form differ: %s" % json.dumps(impl.get("policies_code"))[:300]
+    if "restored" in impl:
+        if impl.get("same_display") is False:
+            return "restored authorizer differs (facts per origin, rules, checks, policies): %s" % json.dumps(impl.get("display_diff"))[:400]
+        if impl.get("same_limits") is False:
+            return "restored authorizer has different limits"
+        if impl.get("same_counters") is False:
+            return "restored authorizer has different iteration / fact counters"
+        a, b = impl["original"], impl["restored"]
+        ka = {k: a.get(k) for k in ("r", "p", "pk", "failed")}
+        kb = {k: b.get(k) for k in ("r", "p", "pk", "failed")}
+        if ka != kb and not (ka["r"] == kb["r"] == "exec"):
+            return "restored authorizer decides differently: %s vs %s" % (json.dumps(ka), json.dumps(kb))
+        for i, (x, y) in enumerate(zip(a.get("queries", []), b.get("queries", []))):
+            if _canon_query(x) != _canon_query(y):
+                return "restored authorizer answers query %d differently" % i
+    return None
+
+
 def oracle_symbols(case, impl):
     """C12 on the implementation alone: in memory == after a round trip, at every step"""
     if "panic" in impl:
@@ -517,7 +580,7 @@ def oracle_limits(case, impl):
     return None
 
 
-ORACLES = {("C12", "symbols"): oracle_symbols, ("C10", "limits"): oracle_limits, ("C06", "expr"): oracle_expr, ("C03", "atten"): oracle_atten}
+ORACLES = {("C13", "snapshot"): oracle_snapshot, ("C12", "symbols"): oracle_symbols, ("C10", "limits"): oracle_limits, ("C06", "expr"): oracle_expr, ("C03", "atten"): oracle_atten}
 
 
 def signature(d):
@@ -565,7 +628,12 @@ def match_ecdsa_s(k, d):
     return "ecdsa (r, n-s)" in str(d["case"].get("mutation", "")) and d["impl"].get("accept") is True and d["model"].get("accept") is False
 
 
-MATCHERS = {"ecdsa-s": match_ecdsa_s, "amb": match_amb, "time-after-failed-run": match_time_after_failed_run}
+def match_policies_key_scope(k, d):
+    """saved policies naming a public key cannot be restored: the message has no key table"""
+    return d["why"].startswith("policies restore error") and "UnknownExternalKey" in d["why"] and '"key"' in json.dumps(d["case"]["az"])
+
+
+MATCHERS = {"policies-key-scope": match_policies_key_scope, "ecdsa-s": match_ecdsa_s, "amb": match_amb, "time-after-failed-run": match_time_after_failed_run}
 
 
 # ---------------------------------------------------------------- shrinking
